@@ -129,6 +129,11 @@ func isPermutationOfBlocks(out string, blocks []string, sep string, needAll bool
 
 func (e *c10Exec) Check(o *mc.Outcome) []Viol {
 	e.Finish()
+	if e.W != nil {
+		// judge the bytes the writer holds at quiescence: on an error path the call may return while a worker
+		// is still inside a root block (goroutines settle after the return; C11 checks that they do)
+		e.Out = e.W.buf.String()
+	}
 	var vs []Viol
 	ref := e.ref
 	d := e.d
